@@ -218,6 +218,10 @@ fn size_sweep(rep: &mut Report, args: &Args, ev: &Evaluator, strict: &Opts) {
     ];
     let mut sizes: Vec<usize> = (0..=130).collect();
     sizes.extend_from_slice(&[255, 256, 257, 511, 512, 513, 1000, 1023, 1024, 1025]);
+    if args.tier == "thorough" {
+        sizes.extend(131..=600);
+        sizes.extend_from_slice(&[2047, 2048, 2049, 4095, 4096, 4097, 32767, 32768, 32769, 65535, 65536, 65537, 100_000]);
+    }
     let trees: Vec<_> = EXPRS.iter().map(|t| parse(t, strict).expect("sweep expression parses")).collect();
     let compiled: Vec<_> = EXPRS.iter().map(|t| jmespath::compile(t)).collect();
     for (si, &n) in sizes.iter().enumerate() {
